@@ -112,6 +112,18 @@ func referenceLicense(files []licFile, threshold float64) (*lc.License, error) {
 	return lc.VerifWrap(b, threshold), nil
 }
 
+// referenceLicenseAddValue builds the classifier the plain way: AddValue of the trimmed text (the classifier
+// normalises it itself and builds the search set on first use), no precomputed search sets involved.
+func referenceLicenseAddValue(files []licFile, threshold float64) (*lc.License, error) {
+	b := stringclassifier.New(threshold, lc.Normalizers...)
+	for _, f := range files {
+		if err := b.AddValue(archiveKey(f.Name), lc.TrimExtraneousTrailingText(f.Content)); err != nil {
+			return nil, err
+		}
+	}
+	return lc.VerifWrap(b, threshold), nil
+}
+
 func renderMatches(ms stringclassifier.Matches) []string {
 	var out []string
 	for _, m := range ms {
